@@ -441,6 +441,7 @@ func (s *Syncer) addPeer(p *Peer) error {
 	}
 	s.peers[p.t.Addr] = p
 	verifEvent("s.addpeer", s.verifID(), s.verifPeers(p.Inbound))
+	verifEvent("s.peer.add", s.verifID(), p.verifID())
 	return nil
 }
 
@@ -506,6 +507,7 @@ func (s *Syncer) runPeer(p *Peer) {
 		s.mu.Lock()
 		delete(s.peers, p.t.Addr)
 		verifEvent("s.rmpeer", s.verifID(), s.verifPeers(p.Inbound))
+		verifEvent("s.peer.rm", s.verifID(), p.verifID())
 		s.mu.Unlock()
 
 		// notify goroutines of removed peer
@@ -514,6 +516,7 @@ func (s *Syncer) runPeer(p *Peer) {
 
 	done, err := s.tg.Add()
 	if err != nil {
+		verifEvent("s.peer.refused", s.verifID(), p.verifID())
 		return
 	}
 	defer done()
@@ -527,6 +530,7 @@ func (s *Syncer) runPeer(p *Peer) {
 	go func() {
 		select {
 		case <-s.tg.Done():
+			verifEvent("s.peer.watch", s.verifID(), p.verifID())
 			p.Close()
 		case <-stopped:
 		}
@@ -701,6 +705,7 @@ func (s *Syncer) alreadyConnected(id gateway.UniqueID) bool {
 }
 
 func (s *Syncer) acceptLoop(ctx context.Context) error {
+	defer verifEvent("s.loop.exit", s.verifID(), 0)
 	ctx, done, err := s.tg.AddContext(ctx)
 	if err != nil {
 		return err
@@ -762,6 +767,7 @@ func (s *Syncer) acceptLoop(ctx context.Context) error {
 }
 
 func (s *Syncer) peerLoop(ctx context.Context) error {
+	defer verifEvent("s.loop.exit", s.verifID(), 1)
 	log := s.log.Named("peerLoop")
 	numOutbound := func() (n int) {
 		s.mu.Lock()
@@ -870,6 +876,7 @@ func (s *Syncer) peerLoop(ctx context.Context) error {
 }
 
 func (s *Syncer) syncLoop(ctx context.Context) error {
+	defer verifEvent("s.loop.exit", s.verifID(), 2)
 	ticker := time.NewTicker(s.config.SyncInterval)
 	defer ticker.Stop()
 	for {
@@ -968,6 +975,7 @@ func (s *Syncer) Run() error {
 		return err
 	}
 	defer done()
+	verifEvent("s.run.start", s.verifID(), 0)
 
 	errChan := make(chan error)
 	for _, fn := range []func(context.Context) error{s.acceptLoop, s.peerLoop, s.syncLoop} {
@@ -977,27 +985,34 @@ func (s *Syncer) Run() error {
 				errChan <- err
 				return
 			}
+			verifEvent("s.loop.start", s.verifID(), 0)
 			errChan <- fn(ctx)
 			done()
 		}()
 	}
 	err = <-errChan
+	verifEvent("s.run.recv", s.verifID(), 1)
 
 	// when one goroutine exits, shutdown and wait for the others
+	verifEvent("s.run.lclose", s.verifID(), 0)
 	s.l.Close()
 	s.mu.Lock()
+	verifEvent("s.run.sweep", s.verifID(), len(s.peers))
 	for _, p := range s.peers {
 		p.Close()
 	}
 	s.mu.Unlock()
 	<-errChan
+	verifEvent("s.run.recv", s.verifID(), 2)
 	<-errChan
+	verifEvent("s.run.recv", s.verifID(), 3)
 
 	// wait for all peer goroutines to exit
 	s.mu.Lock()
 	for len(s.peers) != 0 {
 		s.peerRemoved.Wait()
 	}
+	verifEvent("s.run.drained", s.verifID(), len(s.peers))
 	s.mu.Unlock()
 
 	if errors.Is(err, net.ErrClosed) {
@@ -1008,6 +1023,7 @@ func (s *Syncer) Run() error {
 
 // Close closes the Syncer's net.Listener.
 func (s *Syncer) Close() error {
+	verifEvent("s.close.l", s.verifID(), 0)
 	err := s.l.Close()
 	s.tg.Stop()
 	return err
